@@ -28,6 +28,8 @@ type Message struct {
 		// Err 异常情况
 		Err error `json:"err,omitempty"`
 	}
+	// activeMsg 超时/写失败的完成情况对应的是哪一个下发请求 (流水号回绕后会复用 不能只靠流水号判断)
+	activeMsg *ActiveMessage
 }
 
 func newTerminalMessage(jtMsg *jt808.JTMessage, terminalData []byte) *Message {
